@@ -17,9 +17,11 @@ HOST_IPS = [F.ip(10, 0, 0, 1), F.ip(10, 0, 0, 2), F.ip(10, 0, 1, 1),
 SAFE_PORTS = [80, 81, 1000, 1001, 4000, 65535, 1]
 
 
-def gen_frame(r, rich=False, nhosts=4):
+def gen_frame(r, rich=False, nhosts=4, trunc=False):
   """a frame spec; rich=True widens to VLAN/ARP/ICMP/fragments/options/
-  LLC/other ethertypes"""
+  LLC/other ethertypes; trunc=True also to datagrams cut off inside their
+  transport header and ARP opcodes that do not fit nw_proto (frames that
+  lack a field an entry may require)"""
   s = r.randrange(nhosts)
   d = r.randrange(nhosts)
   fs = {"src": mac_hex(1 + s), "dst": mac_hex(1 + d),
@@ -41,6 +43,8 @@ def gen_frame(r, rich=False, nhosts=4):
     fs["icode"] = r.pick([0, 0, 1])
   elif k == "arp":
     fs["op"] = r.pick([1, 2, 3, 255])
+    if trunc and r.chance(0.3):
+      fs["op"] = r.pick([256, 0x0101, 0x0202, 0xffff])
     if r.chance(0.5):
       fs["dst"] = "ffffffffffff"
   elif k == "rarp":
@@ -67,6 +71,10 @@ def gen_frame(r, rich=False, nhosts=4):
       fs["ipopts"] = r.pick(["01010101", "0101010101010101"])
     if k == "tcp" and r.chance(0.2):
       fs["tcpopts"] = r.pick(["020405b4", "01010101"])
+    if trunc and k in ("udp", "tcp", "icmp") and not fs.get("frag") \
+        and r.chance(0.25):
+      fs["l4cut"] = r.pick({"tcp": [0, 4, 12, 19], "udp": [0, 4, 7],
+                            "icmp": [0, 2, 3]}[k])
   if k not in ("snap", "llc") and r.chance(0.3):
     fs["vlan"] = [r.pick([1, 5, 100, 0xfff, 0]), r.pick([0, 0, 3, 7])]
     if r.chance(0.2):
@@ -107,12 +115,17 @@ def match_from_key(key, r, keep=0.5, exact=False):
       if key["dl_type"] == 0x0800 and k():
         m["nw_tos"] = key["nw_tos"]
       if k(0.7):
-        m["nw_proto"] = key["nw_proto"]
+        # (a field the frame lacks -- None in the key -- is required with
+        # some value: no value equals an absent field)
+        m["nw_proto"] = key["nw_proto"] if key["nw_proto"] is not None \
+            else r.pick([1, 2])
         if key["dl_type"] == 0x0800 and key["nw_proto"] in (1, 6, 17):
           if k():
-            m["tp_src"] = key["tp_src"]
+            m["tp_src"] = key["tp_src"] if key["tp_src"] is not None \
+                else r.pick(SAFE_PORTS + [0])
           if k():
-            m["tp_dst"] = key["tp_dst"]
+            m["tp_dst"] = key["tp_dst"] if key["tp_dst"] is not None \
+                else r.pick(SAFE_PORTS + [0])
       for f in ("nw_src", "nw_dst"):
         if k(0.6):
           bits = 0 if exact else r.wpick(
@@ -120,7 +133,8 @@ def match_from_key(key, r, keep=0.5, exact=False):
           mask = (0xffffffff << bits) & 0xffffffff
           # the bits under the wildcard are "don't care": a third of the
           # prefixes keep them set, as a controller may send them
-          m[f] = key[f] if (bits and r.chance(0.35)) else key[f] & mask
+          kv = key[f] if key[f] is not None else HOST_IPS[0]
+          m[f] = kv if (bits and r.chance(0.35)) else kv & mask
           m[f + "_bits"] = bits
   return m
 
